@@ -164,14 +164,14 @@ def build_frame(t):
                     _ = x.jpg                          # read-only image: the encoding is cached in the frame
                 info['px'] = np.array(arr, copy=True, order='C')
         else:
-            jpg = jpg_of(px)
+            # an encoding that comes from outside (a camera, an upload) may be a single-channel JPEG although the frame is
+            # declared a colour frame: it decodes to the declared shape all the same
+            jpg = jpg_of(pattern(h, w, 1, t.get('seed', 0)) if ch == 3 and t.get('seed', 0) == 4 else px)
             x = Frame.from_jpg(blob_of(jpg, t['blob']), data, h, w, fmt)
             if kind == 'jpgdec':
                 _ = x.image
-                info['px'] = np.array(x.image, copy=True, order='C')
-            else:                                      # must not touch x.image: a twin frame tells what x.image is
-                info['px'] = np.array(Frame.from_jpg(blob_of(jpg, t['blob']), None, h, w, fmt).image, copy=True,
-                                      order='C')
+            # what the frame's image is: the decoding of its jpg to the declared shape (reference decode, not the frame's own)
+            info['px'] = decode_ref(jpg, ch == 1)
     # the encoding that already exists: the blob the frame was made from (ground truth, not what x.jpg says now),
     # or - for a frame that encoded itself earlier - what x.jpg returned
     existing = (jpg if kind in ('jpgonly', 'jpgdec') else bytes(x.jpg)) if x.has_jpg else None
